@@ -68,6 +68,11 @@ def gen(rng, tier):
             a = bytes.fromhex(parts[1]).decode().strip()[2:]
             for d in (1, 2, 3):
                 cases.append(Case("cli.new_vanity %s %s - default %s" % (hx(str(L)), hx("0x" + a[:d]), st2), tags=("model", "prefix-of-entry", "L:%d" % L, "entry:%d" % k), runner="cli", meta={"threads": 0, "log": True}))
+    # the empty prefix `0x` (every address matches: the first candidate is the answer), for every length and thread count —
+    # with workers, the first candidate is handed to each of them
+    for L, nb in ((12, 16), (15, 20), (18, 24), (21, 28), (24, 32)):
+        for thr in (0, 1, 2, 16):
+            cases.append(Case("cli.new_vanity %s %s - default %s" % (hx(str(L)), hx("0x"), stream(rng, 40, nb)), tags=("model", "empty-prefix", "threads:%d" % thr), runner="cli", meta={"threads": thr}))
     # refused prefixes / selectors (no search happens)
     for bad in ["", "0x", "ab", "0xg", "0xG1", "0x1g", "x1", "0X1", "0x é", "0x-1", " 0x1", "0x1 ", "0xé"]:
         st = stream(rng, 3, 16)
